@@ -506,21 +506,43 @@ def compareFilesP : Prog :=
      .note "call" "showCompareInfo" ;; .note "call" "ShowChanges" ;; .note "ret" "0") ;;
   .note "ret" "HandleAbort(…)"
 
-/-! ## front ends -/
+/-! ## front ends
 
-/-- `drc`: `-C` / `--compare` sets `isCompare`; one argument talks to the device, two compare files. -/
-def drcIsCompare (flags : List String) : Bool := flags.contains "-C" || flags.contains "--compare"
+The dispatch of both front ends is DATA (flag names, action words, log-file suffixes) from which
+both the model functions and the expected skeleton items (`frontEndFacts`) are computed; the
+skeleton items are compared with the facts regenerated from the Go source. -/
 
-def drcMain (b : Backend) (cfg : Cfg) (flags : List String) (nargs : Nat) : Prog :=
-  if nargs = 1 then approveOrCompareP b { cfg with isCompare := drcIsCompare flags }
-  else if nargs = 2 then compareFilesP
-  else .nop
+/-- drc: (long, short) name of the flag that selects compare, and of the log directory flag -/
+def drcCompareFlag : String × String := ("compare", "C")
+def drcLogDirFlag : String × String := ("logdir", "L")
 
-/-- `do-approve ACTION DEVICE`: `isCompare := action == "compare"`; anything but approve/compare is a usage error. -/
-def doApproveMain (b : Backend) (cfg : Cfg) (action : String) : Prog :=
-  if action == "compare" then approveOrCompareP b { cfg with isCompare := true }
-  else if action == "approve" then approveOrCompareP b { cfg with isCompare := false }
-  else .nop
+/-- `isCompare := fs.BoolP("compare", "C", …)` -/
+def drcIsCompare (flags : List String) : Bool :=
+  flags.contains ("-" ++ drcCompareFlag.2) || flags.contains ("--" ++ drcCompareFlag.1)
+
+/-- The result of a usage error: nothing is sent, exit status 1. -/
+def usageSt : St := { status := .failed "usage" }
+
+/-- `drc [flags] ARG…`: one argument talks to the device (compare iff the flag is given), two
+arguments compare files, anything else is a usage error. -/
+def runDrc (b : Backend) (cfg : Cfg) (dev : Dev) (plan : List String) (flags : List String)
+    (nargs : Nat) : St :=
+  if nargs = 1 then runMain b ⟨{ cfg with isCompare := drcIsCompare flags }, dev, plan⟩
+  else if nargs = 2 then run ⟨cfg, dev, plan⟩ compareFilesP
+  else usageSt
+
+/-- do-approve: the word `isCompare` is compared with … -/
+def doApproveCompareWord : String := "compare"
+
+/-- … and the `switch action`: case literal ↦ suffix of the log file; `default` is a usage error. -/
+def doApproveCases : List (String × String) := [("compare", ".compare"), ("approve", ".drc")]
+
+/-- `do-approve ACTION DEVICE`, as the code does it: the switch decides whether the word is
+accepted (and how the log file is called), `isCompare := action == "compare"` decides what runs. -/
+def runDoApprove (b : Backend) (cfg : Cfg) (dev : Dev) (plan : List String) (action : String) : St :=
+  match doApproveCases.lookup action with
+  | none => usageSt
+  | some _ => runMain b ⟨{ cfg with isCompare := action == doApproveCompareWord }, dev, plan⟩
 
 /-! ## the table compared with `Gen.GateSkel.functions` -/
 
@@ -619,26 +641,54 @@ def modelSkeletons : List (String × List Item) :=
     ("httpdevice.TryReachableHTTPLogin", tryReachableSkel),
     ("cisco.(*State).GetChanges", skel 0 ciscoGetChanges) ]
 
-/-- What the front ends must look like (projection of their skeleton on the assignments of
-`isCompare` / `action`, the `switch` on the number of arguments and the calls into pkg/device). -/
+def q (s : String) : String := "\"" ++ s ++ "\""
+
+/-- What the front ends must look like: projection of their regenerated skeleton on flag
+definitions and other watched assignments, every `switch` with all its clauses and the returns
+inside, and the calls into pkg/device.  The items that carry the dispatch are computed from the
+tables the model functions use. -/
 def frontEndFacts : List (String × List Item) := [
   ("drc.Main", [
-    (0, "assign", "isCompare := fs.BoolP(\"compare\", \"C\", false, \"Compare only\")"),
+    (0, "assign", "isCompare := fs.BoolP(" ++ q drcCompareFlag.1 ++ ", " ++ q drcCompareFlag.2 ++ ", false, \"Compare only\")"),
+    (0, "assign", "logDir := fs.StringP(" ++ q drcLogDirFlag.1 ++ ", " ++ q drcLogDirFlag.2 ++ ", \"\", \"Path for saving session logs\")"),
+    (0, "assign", "logFile := fs.StringP(\"LOGFILE\", \"\", \"\", \"Path to redirect STDERR\")"),
+    (0, "assign", "user := fs.StringP(\"user\", \"u\", \"\", \"Username for login to remote device\")"),
+    (0, "assign", "quiet := fs.BoolP(\"quiet\", \"q\", false, \"No info messages\")"),
+    (0, "assign", "showVer := fs.BoolP(\"version\", \"v\", false, \"Show version\")"),
+    (0, "assign", "err := fs.Parse(os.Args[1:])"),
+    (0, "assign", "args := fs.Args()"),
     (0, "switch", "len(args)"),
+    (1, "case", "0"), (2, "fallthrough", ""),
+    (1, "case", "default"), (2, "ret", "1"),
     (1, "case", "1"),
+    (3, "ret", "abort(…)"),
     (2, "call", "device.SetLock"),
+    (3, "ret", "abort(…)"),
     (2, "call", "device.ApproveOrCompare(*isCompare, fname, cfg, *logDir, *logFile, *quiet)"),
+    (2, "ret", "ApproveOrCompare(…)"),
     (1, "case", "2"),
-    (2, "call", "device.CompareFiles(args[0], args[1], *quiet)")]),
-  ("doapprove.Main", [
-    (0, "assign", "action := args[0]"),
-    (0, "assign", "devName := args[1]"),
-    (0, "assign", "isCompare := action == \"compare\""),
-    (0, "call", "device.SetLock"),
-    (0, "call", "device.ApproveOrCompare(isCompare, codeFile, cfg, logDir, logFile, false)")])]
+    (2, "assign", "q := fs.Changed(\"quiet\")"),
+    (2, "assign", "n := fs.NFlag()"),
+    (3, "ret", "1"),
+    (2, "call", "device.CompareFiles(args[0], args[1], *quiet)"),
+    (2, "ret", "CompareFiles(…)")]),
+  ("doapprove.Main",
+    [ (0, "assign", "brief := fs.BoolP(\"brief\", \"b\", false, \"Suppress message about unreachable device\")"),
+      (0, "assign", "err := fs.Parse(os.Args[1:])"),
+      (0, "assign", "args := fs.Args()"),
+      (0, "assign", "action := args[0]"),
+      (0, "assign", "devName := args[1]"),
+      (0, "assign", "logFile := path.Join(logDir, devName)"),
+      (0, "assign", "isCompare := action == " ++ q doApproveCompareWord),
+      (0, "switch", "action") ] ++
+    doApproveCases.flatMap (fun c =>
+      [(1, "case", q c.1), (2, "assign", "logFile += " ++ q c.2)]) ++
+    [ (1, "case", "default"), (2, "ret", "1"),
+      (0, "call", "device.SetLock"),
+      (0, "call", "device.ApproveOrCompare(isCompare, codeFile, cfg, logDir, logFile, false)") ])]
 
 def isFrontEndItem (it : Item) : Bool :=
-  it.2.1 == "assign" || it.2.1 == "switch" || it.2.1 == "case" ||
-    (it.2.1 == "call" && hasPrefix it.2.2 "device.")
+  it.2.1 == "assign" || it.2.1 == "switch" || it.2.1 == "case" || it.2.1 == "fallthrough" ||
+    it.2.1 == "ret" || (it.2.1 == "call" && hasPrefix it.2.2 "device.")
 
 end NA.Gate
